@@ -128,6 +128,12 @@ def run_job(job, gendir, workroot, vacuity=False, trace=True):
     missing = [p for p in exp if not any(re.search(p, o['desc'] or '') for o in failed)]
     if missing:
         res['status'] = 'inconclusive'; res['reason'] = 'negative control did not fail: %s' % missing; return res
+    # limits of the HARNESS (an unwinding bound that is too small for the code as it is now, the fixed capacity of a container model) are not
+    # statements about draco: such a failure makes the job undecided, never a violation
+    limits = [o for o in unexpected if '.unwind.' in (o['name'] or '') or '.recursion.' in (o['name'] or '') or (o['desc'] or '').startswith('stub:')]
+    if limits:
+        res['failed'] = []; res['status'] = 'inconclusive'
+        res['reason'] = 'harness limit reached (needs a larger bound / model; not a violation): ' + ', '.join('%s [%s]' % (o['name'], o['desc']) for o in limits[:4]); return res
     res['failed'] = unexpected
     res['status'] = 'fail' if unexpected else 'ok'
     if not obl: res['status'] = 'inconclusive'; res['reason'] = 'zero obligations'
